@@ -389,6 +389,14 @@ def pinned():
     for shape, n, acc, ov in (("many", 300, "rw", None), ("many", 700, "rw", None), ("many", 700, "r", 0),
                               ("wide", 300, "w", None), ("wide", 300, "rw", None)):
         out.append((f"scale-{shape}-{n}-{acc}-ov{ov}", {"cls": "mux_many", "p": {"shape": shape, "n": n, "dw": 8, "acc": acc, "ov": ov}}))
+    # naturally aligned registers that only a very high address bit tells apart, finite sharing limit
+    # (the shadow has to grow to 2**(k+1) chunks' worth of address bits before the limit is met)
+    for k, slots, ov in ((33, [0, 1], 0), (40, [0, 2, 3], 1), (13, [0, 1, 2, 4], 0), (31, [1, 3], 0)):
+        regs, cur = [], 0
+        for p_ in slots:
+            regs.append({"w": 8, "acc": "rw", "mode": "gap", "gap": (p_ << k) - cur, "pad": 0})
+            cur = (p_ << k) + 1
+        out.append((f"aliased-high-bit-{k}-ov{ov}", {"cls": "mux", "p": {"dw": 8, "al": 0, "regs": regs, "extra_aw": 0, "family": "aliased", "ov": ov}}))
     # decoders over several hundred windows
     for shape, n, feat in (("csrdec", 300, []), ("csrdec", 700, []), ("wbdec", 300, ["err", "stall"]), ("wbdec", 700, ["err", "rty", "stall"])):
         out.append((f"scale-{shape}-{n}", {"cls": "mux_many", "p": {"shape": shape, "n": n, "dw": 8, "feat": feat}}))
